@@ -87,6 +87,9 @@ impl core::ops::Add for F64 { type Output = F64; #[verifier::external_body] fn a
 impl core::ops::Sub for F64 { type Output = F64; #[verifier::external_body] fn sub(self, o: F64) -> (r: F64) { F64(self.0 - o.0) } }
 impl core::ops::Mul for F64 { type Output = F64; #[verifier::external_body] fn mul(self, o: F64) -> (r: F64) { F64(self.0 * o.0) } }
 impl core::ops::Div for F64 { type Output = F64; #[verifier::external_body] fn div(self, o: F64) -> (r: F64) { F64(self.0 / o.0) } }
+// operators on references (`c * -1.0` with c: &f64, `*a - b` ...): same meaning as on values
+impl<'a> MulSpecImpl<F64> for &'a F64 { open spec fn obeys_mul_spec() -> bool { true } open spec fn mul_req(self, o: F64) -> bool { true } open spec fn mul_spec(self, o: F64) -> F64 { f_mul(*self, o) } }
+impl<'a> core::ops::Mul<F64> for &'a F64 { type Output = F64; #[verifier::external_body] fn mul(self, o: F64) -> (r: F64) { F64(self.0 * o.0) } }
 impl core::cmp::PartialEq for F64 { #[verifier::external_body] fn eq(&self, o: &F64) -> (r: bool) ensures r == ext_eq(fv(*self), fv(*o)) { self.0 == o.0 } }
 impl core::cmp::PartialOrd for F64 {
     #[verifier::external_body] fn partial_cmp(&self, o: &F64) -> (r: Option<core::cmp::Ordering>) { self.0.partial_cmp(&o.0) }
